@@ -94,6 +94,9 @@ class LogicC07:
                 or not proto.sleeping(old.self, F(data)[0])
             )
         ),
+        # whatever is handed to the transport while a line is processed (the wake-up burst, a presentation
+        # request) is a command for the node that sent the line - nobody else's traffic is released or touched
+        "jobs-addressed": lambda old, self, data, result: old.G_now.jobs_ok,
         # withheld means withheld, not lost: a reply for a sleeping node is appended to its queue, and
         # queues only shrink (to empty) at that node's wake-up announcement
         "queues": lambda old, self, data, result: forall(
